@@ -1,6 +1,7 @@
 /- Driver operations: the stand-alone object models of Model/Objects.lean (TicketMachine, ScreenStack) on operation sequences. -/
 import Driver.Json
 import Simpleline.Model.Objects
+import Simpleline.Model.Heapq
 
 open Lean Simpleline.Objects
 
@@ -66,5 +67,33 @@ def opSStack (j : Json) : Except String Json := do
   let ops ← (← arr (← field j "ops")).mapM sOp
   let r := ({} : SStack).run ops
   pure (Json.mkObj [("out", Json.arr (r.1.map sOut).toArray), ("state", Json.arr (r.2.screens.map fun (e : Nat) => Json.num e).toArray)])
+
+/-! the real `EventQueue` over CPython's heapq (Model/Heapq.lean): output of every operation and the heap array after it -/
+open Simpleline.Heapq in
+def opHeapq (j : Json) : Except String Json := do
+  let start ← nat (fieldD j "start" (Json.num 0))
+  let mut q : HQueue := { seq := start }
+  let mut n : Nat := 0
+  let mut out : Array Json := #[]
+  for o in ← arr (← field j "ops") do
+    let op ← match ← arr o with
+      | [k] => match ← k.getStr? with
+        | "get" => pure Op.get
+        | _ => throw "bad heapq op"
+      | [k, a] => match ← k.getStr? with
+        | "put" => pure (Op.put (mkSig (← int a) n))
+        | "get_top" => pure (Op.getTop (← int a))
+        | _ => throw "bad heapq op"
+      | _ => throw "bad heapq op"
+    if let .put _ := op then n := n + 1
+    let r := q.step op
+    q := r.2
+    let res : Json := match r.1 with
+      | .done => Json.null
+      | .noSig => Json.null
+      | .sig s => Json.num s.id
+      | .blocked => Json.str "empty"
+    out := out.push (Json.mkObj [("r", res), ("heap", Json.arr (q.heap.map fun e => Json.arr #[Json.num e.1, Json.num e.2.1]))])
+  pure (Json.mkObj [("out", Json.arr out)])
 
 end Driver
